@@ -340,6 +340,21 @@ End Loop.
 Arguments UseDefault {A}.
 Arguments Given {A} a.
 
+(* ------------------------------------------------------------------ what carries the deadline of an attempt on each surface *)
+(* the transports of an emitted library, and the two shapes of rpc that reach every one of them *)
+Inductive surface := SGrpc | SGrpcAsyncio | SRest | SRestAsyncio.
+Inductive shape := Unary | ServerStreaming.
+(* what the transport hands down for one attempt: the timeout= of the gRPC multicallable, or the timeout= of the HTTP
+   session call in _get_response (_shared_macros.j2, response_method).  For the session one number bounds connecting and
+   every read of the response; a (connect, read) pair bounds them apart, and a part that is None is not bounded at all *)
+Inductive handed := Scalar (t : option Q) | Pair (connect read : option Q).
+(* every surface, both shapes: the timeout argument of the attempt itself, as one number (a server stream over sync REST
+   adds stream=True beside it and nothing else) *)
+Definition hand_down (s : surface) (sh : shape) (tm : option Q) : handed := Scalar tm.
+Definition connect_deadline (h : handed) : option Q := match h with Scalar t => t | Pair c _ => c end.
+Definition read_deadline (h : handed) : option Q := match h with Scalar t => t | Pair _ r => r end.
+Definition wire (s : surface) (sh : shape) (tr : trace) : list handed := map (hand_down s sh) (t_timeouts tr).
+
 (* the delay schedule of exponential_sleep_generator: upper bound of the i-th sleep *)
 Fixpoint delay_at (p : retry_params) (i : nat) : Q :=
   match i with
@@ -407,3 +422,10 @@ Definition trace_close (eps tol : Q) (model : trace) (attempts : nat) (sleeps : 
                           | _, _ => false
                           end) (t_timeouts model) timeouts
   && final_eqb (t_final model) f.
+
+Definition handed_eqb (a b : handed) : bool :=
+  match a, b with
+  | Scalar x, Scalar y => optq_eqb x y
+  | Pair c r, Pair c' r' => optq_eqb c c' && optq_eqb r r'
+  | _, _ => false
+  end.
